@@ -338,6 +338,51 @@ func (c *Conn) WaitLine(prefix string, from int, timeout time.Duration) (int, bo
 	return idx, ok
 }
 
+// ServerSide returns a net.Conn for the server's end of the socket (used to
+// run a TLS server on top of it): Read consumes what the client wrote, Write
+// queues data for the client.
+func (c *Conn) ServerSide() net.Conn { return &serverEnd{c: c} }
+
+type serverEnd struct {
+	c   *Conn
+	off int
+}
+
+func (s *serverEnd) Read(p []byte) (int, error) {
+	c := s.c
+	for {
+		c.mu.Lock()
+		ch := c.changed()
+		b := c.wbytes.Bytes()
+		if len(b) > s.off {
+			n := copy(p, b[s.off:])
+			s.off += n
+			c.mu.Unlock()
+			return n, nil
+		}
+		closed := c.closed
+		c.mu.Unlock()
+		if closed {
+			return 0, io.EOF
+		}
+		<-ch
+	}
+}
+
+func (s *serverEnd) Write(p []byte) (int, error) {
+	if s.c.IsClosed() {
+		return 0, ErrClosed
+	}
+	s.c.Send(p)
+	return len(p), nil
+}
+func (s *serverEnd) Close() error                       { s.c.EOF(); return nil }
+func (s *serverEnd) LocalAddr() net.Addr                { return addr("server") }
+func (s *serverEnd) RemoteAddr() net.Addr               { return addr("client") }
+func (s *serverEnd) SetDeadline(t time.Time) error      { return nil }
+func (s *serverEnd) SetReadDeadline(t time.Time) error  { return nil }
+func (s *serverEnd) SetWriteDeadline(t time.Time) error { return nil }
+
 // ---- networks and the proxy dialer ------------------------------------------
 
 // DialRec is one dial attempt.
